@@ -212,6 +212,21 @@ def run(ctx, model_ok):
             flush()
     flush()
 
+    # named functions declared inside blocks / loop bodies / function bodies and called after those constructs ended (a call
+    # needs a seventh token in the shortest such program with an observable read): one length further over the tokens
+    # that matter for it
+    if not thorough:
+        ctx.cov["exhaustive_bound"] += "; sequences of length 7 over {declare a, read a, block, function, loop, close, call} with a function, a call and a block or loop"
+        for seq in L.sequences(7, ["Da", "Ra", "{", "F", "W", "}", "C"]):
+            if len(seq) != 7 or "F" not in seq or "C" not in seq or not ("{" in seq or "W" in seq):
+                continue
+            b = L.build(seq)
+            if b is None:
+                ctx.exclude("pruned_prefix_or_unobservable")
+                continue
+            chunk.append((seq, b[0], b[1]))
+        flush()
+
     # closures created in loop iterations that are kept and called during later iterations and after the loop:
     # every sequence over the loop-closure tokens (the kept closure is the one of the FIRST iteration)
     lmax = 8 if thorough else 7
